@@ -2780,6 +2780,7 @@ def run(ctx):
         '8BITMIME on/off). http: HttpRelay + HttpRelayClient + the real http.client connection over a fake socket against a scripted server (per message ok | reject | refused | mute | hangs up | slow, released in time or not), fixed stall-then-healthy scenarios plus random schedules; every attempt must get the result of its own envelope and a healthy delivery must succeed. Every observed step of the real pool is replayed on the model (must be enabled; pool members, idle flags, queue, semaphore equal); '
         'gated schedules are also predicted by the model\'s FIFO run; each SMTP / HTTP connection\'s log and pool actions are compared with smtp_run / http_run. '
         'reuse streams: sequences A;B(;C) through one re-used connection, A over every failure kind, B also with the next hop hanging up / saying 421 at every stage, SMTP and LMTP on the scripted server and SMTP against the real slimta Server; judged model-free (result = result on a fresh connection; RSET between a failed transaction and the next MAIL; every reply inside a result was issued for that message) and, for the replies read per connection, against the last_error model. '
+        'construction: ehlo_as None(getfqdn as a yielding stub)/str/callable/yielding callable x sizes 1..3 x bursts of overlapping attempts, with a greenlet-switch counter around the pool\'s check-then-add sections; counts: N simultaneous attempts up to 3000 on pools 1 and 2. '
         'non-trivial = at least two attempts and at least four kinds of action (pool) / a failed, reset or requeued transaction (smtp).')
     ctx.extra['trusted_base'] = [
         'gevent semantics assumed by the model: atomicity between blocking calls, Semaphore wakes waiters FIFO and only while its counter is positive, link callbacks after the greenlet ends',
